@@ -37,7 +37,10 @@ def _div(name, first, kind='fraction'):
             assert fr == Fraction(7, 5)
             return vd.modified_first_coef(f)
         if kind == 'decimal':
-            dec = Decimal(fr.numerator) / Decimal(fr.denominator)
+            import decimal
+            with decimal.localcontext() as ctx:
+                ctx.prec = 400
+                dec = Decimal(fr.numerator) / Decimal(fr.denominator)
             assert Fraction(dec) == fr
             return vd.modified_first_coef(f, dec)
         if kind == 'int':
@@ -77,8 +80,8 @@ def _mk(rng, votes, n, div, first, prev, caps, tags):
             kinds += ['default', 'default']
         if fr.denominator == 1:
             kinds.append('int')
-        if fr.denominator & (fr.denominator - 1) == 0:
-            kinds.append('float')                # dyadic: the float is the same number
+        if fr.denominator & (fr.denominator - 1) == 0 and Fraction(float(fr)) == fr:
+            kinds.append('float')                # exactly a double (e.g. the double nearest to 1.4): handed over as float
         if any(c not in '25' for c in _prime_factors(fr.denominator)):
             kinds = [k for k in kinds if k != 'decimal']
         kind = rng.choice(kinds)
@@ -105,7 +108,8 @@ def _gen_one(rng, directed=None):
     if rng.random() < 0.15 or directed == 'mfc':
         # documented use: first coefficient raises the first divisor but stays <= divisor(1)
         d1 = _TEXTBOOK[div](1)
-        first = num_str(rng.choice([Fraction(14, 10), Fraction(14, 10), Fraction(142, 100), Fraction(1), Fraction(12, 10), Fraction(3, 2), d1]))
+        first = num_str(rng.choice([Fraction(14, 10), Fraction(14, 10), Fraction(142, 100), Fraction(1), Fraction(12, 10), Fraction(3, 2), d1,
+                                    Fraction('1.4142136'), Fraction('1.0000001'), Fraction(1.4), Fraction(1.1)]))
         if Fraction(first) > d1:
             first = num_str(d1)
         tags.append('modified_first_coef')
@@ -210,7 +214,11 @@ def generate(rng, tier):
     for div in DIVISORS:
         yield {'op': 'divisor', 'divisor': div, 'first_coef': None, 'upto': 40, '_tags': ['divisor_values']}
         for first, kind in [('7/5', 'default'), ('7/5', 'decimal'), ('71/50', 'decimal'), ('6/5', 'decimal'), ('7/5', 'fraction'),
-                            ('1', 'int'), ('3/2', 'float'), ('3/2', 'decimal'), ('1', 'decimal')]:
+                            ('1', 'int'), ('3/2', 'float'), ('3/2', 'decimal'), ('1', 'decimal'),
+                            # long decimals (reduced denominator beyond 10^6) and doubles that are no short decimal
+                            (num_str(Fraction('1.4142136')), 'decimal'), (num_str(Fraction('1.0000001')), 'decimal'),
+                            (num_str(Fraction('1.23456789012345678901')), 'decimal'),
+                            (num_str(Fraction(1.4)), 'float'), (num_str(Fraction(1.1)), 'float')]:
             if Fraction(first) <= _TEXTBOOK[div](1):
                 yield {'op': 'divisor', 'divisor': div, 'first_coef': first, 'first_kind': kind, 'upto': 12,
                        '_tags': ['divisor_values', 'modified_first_coef', 'coef_as_' + kind]}
